@@ -242,8 +242,15 @@ def main(argv=None):
             json.dump(ev, f, indent=1, default=repr)
         validate_evidence(evp)
 
+    grouped = {}
     for v, f in known:
-        print("KNOWN-FINDING: property=%s %s [%s / %s] x%d" % (prop, f.get("what", ""), v["clause"], v["disc"], v["count"]))
+        g = grouped.setdefault(id(f), (f, []))
+        g[1].append(v)
+    for f, vs in grouped.values():
+        print(
+            "KNOWN-FINDING: property=%s %s%s [%s] x%d"
+            % (prop, (f.get("id", "") + " ") if f.get("id") else "", f.get("what", ""), "; ".join("%s / %s" % (v["clause"], v["disc"]) for v in vs), sum(v["count"] for v in vs))
+        )
     for v, f in new:
         path = write_replay(prop, v)
         print("  signature: %s / %s  (x%d)  %s" % (v["clause"], v["disc"], v["count"], v.get("what", "")[:300]))
